@@ -11,7 +11,7 @@ def check(run):
     run.prove(_proto_theorems.C10)
     rng = run.rng
     quick = run.tier == "quick"
-    N = 40 if quick else 600
+    N = 200 if quick else 1500
     seqs = []
     # field elements: encode with zerokit / decode by the documented layout and vice versa
     for v in FB + [rand_fr(rng) for _ in range(N)]:
